@@ -85,8 +85,28 @@ func (p *player) buildNode() *gomavlib.Node {
 			}
 			n.Endpoints = append(n.Endpoints, gomavlib.EndpointTCPClient{Address: p.addrs[i]})
 		case "udp_client":
-			p.addrs[i] = freePort("udp")
+			// the fake server of a UDP client: every new source address is one channel instance of the endpoint
+			pc, err := net.ListenPacket("udp4", "127.0.0.1:0")
+			if err != nil {
+				fatal("%v", err)
+			}
+			p.addrs[i] = pc.LocalAddr().String()
+			p.pktConns[i] = pc
+			go p.udpPeer(i, pc, false)
 			n.Endpoints = append(n.Endpoints, gomavlib.EndpointUDPClient{Address: p.addrs[i]})
+		case "udp_broadcast":
+			// the node sends to 127.255.255.255:B from 127.0.0.1:L; the player listens on B and feeds L
+			pc, err := net.ListenPacket("udp4", "127.255.255.255:0")
+			if err != nil {
+				fatal("%v", err)
+			}
+			_, bport, _ := net.SplitHostPort(pc.LocalAddr().String())
+			p.addrs[i] = freePort("udp")
+			p.pktConns[i] = pc
+			la, _ := net.ResolveUDPAddr("udp4", p.addrs[i])
+			p.peers[[2]int{i, 1}] = &pktPeer{pc: pc, to: la}
+			go p.udpPeer(i, pc, true)
+			n.Endpoints = append(n.Endpoints, gomavlib.EndpointUDPBroadcast{BroadcastAddress: "127.255.255.255:" + bport, LocalAddress: p.addrs[i]})
 		case "serial":
 			p.serialFailsLeft[i] = e.SerialFails
 			n.Endpoints = append(n.Endpoints, gomavlib.EndpointSerial{Device: fmt.Sprintf("/dev/verif%d", i), Baud: 57600})
@@ -412,7 +432,7 @@ func (p *player) step(s ScStep) {
 					conn.Write(ch) //nolint:errcheck
 				}
 			} else {
-				p.rec.Put(M{"e": "Note", "what": "feed to unknown peer"})
+				p.rec.Put(M{"e": "Ambiguous", "what": "feed to unknown peer", "ep": s.Ep, "peer": s.Peer})
 			}
 		}
 	case "burst":
@@ -505,6 +525,13 @@ func (p *player) step(s ScStep) {
 				p.rec.Put(M{"e": "Timeout", "what": "writers_return", "g": g, "t": p.ms()})
 			}
 		}
+	case "wait_peer":
+		// the fake server of a UDP client knows its peer (the node's socket) only once the node has sent something
+		p.waitFor(3*time.Second, "peer", func() bool {
+			p.mu.Lock()
+			defer p.mu.Unlock()
+			return p.peers[[2]int{s.Ep, s.Peer}] != nil
+		})
 	case "hold":
 		p.setGate(s.Point, s.Ep, true)
 	case "release":
@@ -707,7 +734,7 @@ func (p *player) final(baseline int, evClosed bool) {
 			} else {
 				l.Close()
 			}
-		case "udp_server":
+		case "udp_server", "udp_broadcast":
 			l, err := net.ListenPacket("udp4", p.addrs[i])
 			if err != nil {
 				rebound = false
@@ -715,6 +742,9 @@ func (p *player) final(baseline int, evClosed bool) {
 				l.Close()
 			}
 		}
+	}
+	for _, pc := range p.pktConns {
+		pc.Close()
 	}
 	closes := []int{}
 	for i, e := range p.sc.Endpoints {
